@@ -52,6 +52,7 @@ def main():
     ap.add_argument("--all-props", action="store_true")
     ap.add_argument("--runs", type=int)
     ap.add_argument("--verify", action="store_true")
+    ap.add_argument("--record", action="store_true", help="store the outcome in each meta.json")
     a = ap.parse_args()
     ids = a.ids or sorted(x for x in os.listdir(SEEDED) if os.path.isdir(os.path.join(SEEDED, x)))
     man = json.load(open(os.path.join(VERIF, "MANIFEST.json")))
@@ -91,6 +92,9 @@ def main():
                 vv = re.search(r"violation: (\S+)", out)
                 st = "CAUGHT" if caught else ("clean" if cp.returncode == 0 else "exit%d" % cp.returncode)
                 rows.append((sid, p, "%s runs=%s min_ops=%s check=%s %.0fs" % (st, m and m.group(1), mm and mm.group(1), vv and vv.group(1), time.time() - t0)))
+                if a.record:
+                    meta.setdefault("results", {})[p] = {"outcome": st, "runs_until_caught": m and int(m.group(1)), "minimised_ops": mm and int(mm.group(1)), "check": vv and vv.group(1), "tier": "quick"}
+                    json.dump(meta, open(os.path.join(sd, "meta.json"), "w"), indent=1)
         finally:
             shutil.rmtree(d, ignore_errors=True)
     for r in rows:
